@@ -265,7 +265,7 @@ func checkC03(c *Ctx) {
 		}
 		// registry lookup asks about the served session
 		bad = "the callback never asks the local registry whether the session is still registered"
-		for _, g := range core.CallsTo(s.cb, o.localGet) {
+		for _, g := range c.callsToDeepStop(s.cb, 3, func(g *ssa.Function) bool { return o.arming[g] != nil }, o.localGet) {
 			idc, ok := core.Strip(g.Arg(0)).(*ssa.Call)
 			if ok && core.CallOf(idc).Is(o.sessID) && s.sessIdx >= 0 && reachesParam(idc.Call.Args[0], s.fn, s.sessIdx) {
 				bad = ""
